@@ -130,7 +130,12 @@ class C12(flow.Spec):
                'quadratic memory bound.  Fuel exhaustion is NOT excluded (fuel is not analysed)',
                'C12_parse_total_first_table_never_panics / C12_parse_total_load_first_table_never_panics: the FIRST TABLE with no abstract hypothesis: '
                'over the pool CreateDefaultScopes builds from the empty tree, ParseAML of the image of ANY payload of at most 10000 bytes never panics '
-               '(load [payload] never has outcome class 2); the size bound is what the quadratic memory hypothesis allows (ParserTotalLoad.v)',
+               '(load [payload] never has outcome class 2); the size bound is what the quadratic memory hypothesis allows (ParserTotalLoad.v).  '
+               'C12_parse_total_load_sequence_never_panics_mod / C12_parse_total_load_never_panics_mod: loading ANY NUMBER of tables never panics '
+               'MODULO the residue RES about each returned state (root facts, Method typing TM2, lead-less names in free slots, []byte typing, handle '
+               'bound): INV (the hypotheses of the end-to-end theorem) holds for the default scopes, R / valid indexes / slices-inside are re-established, '
+               'the rest of INV is NOT yet derived for the post-state (missing: TM2 and root facts through the last two passes, names of the two '
+               'children of a Scope directive through free)',
                'the unproved parts of C12_full_parse_total (no Panic / OutOfFuel and R for the later passes, outcome class of load) are covered '
                'by the correspondence of the extracted model (explicit Panic / OutOfFuel outcomes, all passes modelled) with the real parser '
                'and by the harness monitors (outcome class, watchdog, independent link checker, PrettyPrint)',
